@@ -50,6 +50,8 @@ type lockModel struct {
 	// explicit proxy-unlock choice per hash-locked address (absent = allowed)
 	proxy         map[types.Address]bool
 	everDeposited map[types.Address]bool
+	// unwrap requests of the bridge (c10_bridge.go); nil when the run does not exercise the bridge
+	bridge *bridgeModel
 }
 
 func sub(a, b *big.Int) *big.Int { return new(big.Int).Sub(a, b) }
@@ -192,6 +194,9 @@ func (m *lockModel) observe(r *simrt.Run, ms store.Momentum, send, rcv *nom.Acco
 		r.Fail("ledger-scan", "missing-momentum", "no momentum %d", rcv.MomentumAcknowledged.Height)
 	}
 	now, height := int64(ack.TimestampUnix), ack.Height
+	if m.bridge != nil && m.bridge.observe(r, height, send, rcv) {
+		return
+	}
 	key := callKey(send)
 	var pays []*nom.AccountBlock
 	for _, d := range rcv.DescendantBlocks {
@@ -452,6 +457,11 @@ func runC10(r *simrt.Run) {
 			constants.PillarEpochLockTime, constants.PillarEpochRevokeTime, constants.SentinelLockTimeWindow, constants.SentinelRevokeTimeWindow = o5, o6, o7, o8
 		})
 	}
+	// the bridge: under its spork, in two runs of three, a harness key administers it and another one is its TSS key
+	bridgeOn := mode == nomsim.SporksActive && t.Choose(3) != 0
+	if bridgeOn {
+		w.BridgeAdmin(w.Users[t.Choose(3)].Address, uint64(1+t.Choose(3)), 1+t.Choose(4))
+	}
 	p := w.AddNode("P", nomsim.MockPillars(), false)
 	wl := nomsim.NewWorkload(w, mode)
 	wl.MaxOps = 3 + t.Choose(7)
@@ -461,6 +471,13 @@ func runC10(r *simrt.Run) {
 		"register-sentinel", "revoke-sentinel", "sentinel-lifecycle", "register-pillar", "revoke-pillar", "liquidity-stake", "liquidity-cancel"}
 	model := &lockModel{entries: map[types.Hash]*lockEntry{}, proxy: map[types.Address]bool{}, pillars: map[string]*lockEntry{}, sentinels: map[types.Address]*lockEntry{},
 		deposits: map[types.Address]map[types.Address]*big.Int{}, everDeposited: map[types.Address]bool{}}
+	bridgeFlows := nomsim.BridgeFlowNames[1:] // all but the setup, which runs every slot
+	if bridgeOn {
+		wl.G.EnableBridge()
+		lockFlows = append(lockFlows, bridgeFlows...)
+		model.bridge = newBridgeModel()
+		r.Probe("bridge-enabled")
+	}
 	// collateral that exists since genesis
 	gst := p.Chain.GetFrontierMomentumStore()
 	if ps, err := definition.GetPillarsList(gst.GetAccountStore(types.PillarContract).Storage(), true, definition.AnyPillarType); err == nil {
@@ -490,11 +507,20 @@ func runC10(r *simrt.Run) {
 	for s := 0; s < slots; s++ {
 		t.Span(func() {
 			wl.G.RefreshTokens(p)
+			if bridgeOn {
+				nomsim.FlowByName("bridge-setup").Run(wl.G, p)
+			}
 			wl.Ops(p)
 			t.Loop(3, 4, 6, func() {
 				f := nomsim.FlowByName(lockFlows[t.Choose(len(lockFlows))])
 				f.Run(wl.G, p)
 			})
+			if bridgeOn {
+				t.Loop(2, 3, 4, func() {
+					// wrap, unwrap, redeem, revoke, replay, retune
+					nomsim.FlowByName(bridgeFlows[t.Pick([]int{3, 5, 6, 1, 2, 1})]).Run(wl.G, p)
+				})
+			}
 			switch t.Choose(10) {
 			case 0:
 				w.SkipSlots(int64(1 + t.Choose(40)))
@@ -515,9 +541,15 @@ func runC10(r *simrt.Run) {
 			h0 := p.Height()
 			w.StepSlot()
 			ms := p.Chain.GetFrontierMomentumStore()
+			if model.bridge != nil {
+				model.bridge.sync(ms, p.Height())
+			}
 			for h := h0 + 1; h <= p.Height(); h++ {
 				d := p.Detailed(h)
 				for _, b := range d.AccountBlocks {
+					if model.bridge != nil {
+						model.bridge.refused(r, ms, b)
+					}
 					if b.BlockType != nom.BlockTypeContractReceive || len(b.Data) != 8 || common.BytesToUint64(b.Data) != 1 {
 						continue
 					}
@@ -547,6 +579,7 @@ func runC10(r *simrt.Run) {
 	r.Finger = fmt.Sprintf("%s-%d-%d", p.Frontier().Hash.String()[:16], paid, open)
 	r.Sample["height"] = p.Height()
 	r.Sample["short_locks"] = short
+	r.Sample["bridge"] = bridgeOn
 	r.Sample["entries_paid_open"] = []int{paid, open}
 }
 
